@@ -368,7 +368,9 @@ func runB(root, id string, eb *engineB) int {
 			go func(s int) {
 				defer wg.Done()
 				var out, errb bytes.Buffer
-				cmd := exec.Command(runner, "-property", id, "-scenario", sc.Name,
+				// address-space cap: a runaway allocation of the code under
+				// test kills the shard (engine error), never the machine
+				cmd := exec.Command("sh", "-c", "ulimit -v 12582912; exec \"$0\" \"$@\"", runner, "-property", id, "-scenario", sc.Name,
 					"-bound", fmt.Sprint(bound), "-shard", fmt.Sprint(s), "-shards", fmt.Sprint(shards),
 					"-deadline", fmt.Sprintf("%.1f", deadline), "-validate", fmt.Sprint(validate))
 				cmd.Env = append(env(), "GOMAXPROCS=2")
